@@ -21,13 +21,13 @@ func c13New(kind string) ap.CollectionInterface {
 	case "IRIs":
 		return &ap.IRIs{}
 	case "Collection":
-		return &ap.Collection{ID: "https://example.com/c", Type: ap.CollectionType}
+		return &ap.Collection{ID: "https://example.com/c", Type: ap.CollectionType, TotalItems: 9}
 	case "CollectionPage":
-		return &ap.CollectionPage{ID: "https://example.com/cp", Type: ap.CollectionPageType}
+		return &ap.CollectionPage{ID: "https://example.com/cp", Type: ap.CollectionPageType, TotalItems: 9}
 	case "OrderedCollection":
-		return &ap.OrderedCollection{ID: "https://example.com/oc", Type: ap.OrderedCollectionType}
+		return &ap.OrderedCollection{ID: "https://example.com/oc", Type: ap.OrderedCollectionType, TotalItems: 9}
 	case "OrderedCollectionPage":
-		return &ap.OrderedCollectionPage{ID: "https://example.com/ocp", Type: ap.OrderedCollectionPageType}
+		return &ap.OrderedCollectionPage{ID: "https://example.com/ocp", Type: ap.OrderedCollectionPageType, TotalItems: 9}
 	}
 	panic(kind)
 }
